@@ -595,6 +595,9 @@ def operand(kind, label):
     if label.startswith('m'):
         pmode, shapes = SOURCES[kind]
         return pmode, M.mb_variant(shapes[int(label[1:])])
+    if label.startswith('l'):
+        pmode, shapes = SOURCES[kind]
+        return pmode, M.ml_variant(shapes[int(label[1:])])
     tbl = SOURCES if label.startswith('s') or label.isdigit() else xshapes()
     pmode, shapes = tbl[kind]
     return pmode, shapes[int(label.lstrip('sx'))]
@@ -606,13 +609,15 @@ def mb_pairs(full, coercing):
     targets = target_modes()
     jobs = []
     for kind, (pmode, shapes) in SOURCES.items():
-        ms = [(i, M.mb_variant(x)) for i, x in enumerate(shapes)]
-        ms = [(i, x) for i, x in ms if x is not None]
+        ms = [(f'm{i}', M.mb_variant(x)) for i, x in enumerate(shapes)]
+        # `l<i>`: the shape broken over two physical lines at its first operator outside any bracket (valid only where enclosed)
+        ms += [(f'l{i}', M.ml_variant(x)) for i, x in enumerate(shapes)]
+        ms = [(lab, x) for lab, x in ms if x is not None]
         for t in targets:
             if t in NOT_SWEPT or (not full and (kind, t) not in coercing):
                 continue
-            for i, x in ms:
-                jobs.append((kind, f'm{i}', pmode, x, t))
+            for lab, x in ms:
+                jobs.append((kind, lab, pmode, x, t))
     return jobs
 
 
@@ -786,6 +791,10 @@ def put_jobs(full, rng):
                 if msrc is None or (not full and rng.random() > 0.5):
                     continue
                 jobs.append((name, csrc, cmode, how, target, kind, f'm{si}', pmode, msrc, 'fst'))
+            for si, src in enumerate(shapes):
+                lsrc = M.ml_variant(src)
+                if lsrc is not None:
+                    jobs.append((name, csrc, cmode, how, target, kind, f'l{si}', pmode, lsrc, 'fst'))
     return jobs
 
 
